@@ -116,9 +116,9 @@ WRAP:
 		if !added {
 			added = true
 			// Otherwise, set the date at the beginning (since the current time is irrelevant).
-			t = time.Date(t.Year(), t.Month(), 1, 0, 0, 0, 0, loc)
+			t = startOfDay(time.Date(t.Year(), t.Month(), 1, 0, 0, 0, 0, loc))
 		}
-		t = t.AddDate(0, 1, 0)
+		t = startOfDay(t.AddDate(0, 1, 0))
 
 		// Wrapped around.
 		if t.Month() == time.January {
@@ -208,6 +208,20 @@ WRAP:
 	}
 
 	return t.In(origLocation)
+}
+
+// startOfDay corrects an instant that was meant to be midnight in a zone where that midnight does not exist because
+// of a DST change (time.Date and AddDate then answer 23:00 of the day before, or 01:00): it moves to the first instant
+// of the intended day. The month loop needs this for the first of a month (America/Asuncion, 2017-10-01), as the day
+// loop does for any other day.
+func startOfDay(t time.Time) time.Time {
+	if t.Hour() != 0 {
+		if t.Hour() > 12 {
+			return t.Add(time.Duration(24-t.Hour()) * time.Hour)
+		}
+		return t.Add(time.Duration(-t.Hour()) * time.Hour)
+	}
+	return t
 }
 
 // dayMatches returns true if the schedule's day-of-week and day-of-month
